@@ -8,6 +8,7 @@ from ...core.time import TimeAxis
 
 from ...utils.types import BasisManagedComplexArray
 from ...core.managers import BasisManaged
+from ...core.managers import energy_units
 
 from .dmevolution import DensityMatrixEvolution
 from ..hilbertspace.operators import DensityMatrix
@@ -47,7 +48,9 @@ class StateVectorEvolution(MatrixData, BasisManaged):
         
         if (self.is_in_rwa and sgn == 1) or sgn == -1:
             
-            HOmega = ham.get_RWA_skeleton()
+            # the frame frequencies multiply times in femtoseconds
+            with energy_units("int"):
+                HOmega = ham.get_RWA_skeleton()
             
             for i, t in enumerate(self.TimeAxis.data):
                 # evolution operator
